@@ -124,6 +124,9 @@ func NewDispatcher(
 
 	// Calculate concurrency for ingestion.
 	concurrency := min(max(runtime.GOMAXPROCS(0)/2, 2), 8)
+	if n, ok := verifhook.Get("dispatch.concurrency").(int); ok && n >= 2 && n <= 8 {
+		concurrency = n
+	}
 
 	disp := &Dispatcher{
 		alerts:              alerts,
